@@ -87,6 +87,26 @@ func scenarios() []scenario {
 			},
 			Run: func(sb *fsx.Sandbox) error { _, err := font.InstallTrueTypeFont(sb.P("fonts"), sb.P("src/a.ttf")); return err }})
 	}
+	// retry: an install that failed is simply tried again; once the retry reports success the font must be durable
+	// (a first attempt may have published the file and failed while flushing the directory)
+	for _, pre := range []bool{false, true} {
+		pre := pre
+		ss = append(ss, scenario{Name: fmt.Sprintf("font.InstallTrueTypeFont/retry/pre=%v", pre), Dir: "fonts", Durable: true,
+			Setup: func(sb *fsx.Sandbox) {
+				fontsDir(sb)
+				sb.Put("src/a.ttf", fontBytes(0), 0644)
+				if pre {
+					preinstall(sb, 0)
+				}
+			},
+			Run: func(sb *fsx.Sandbox) error {
+				_, err := font.InstallTrueTypeFont(sb.P("fonts"), sb.P("src/a.ttf"))
+				if err != nil {
+					_, err = font.InstallTrueTypeFont(sb.P("fonts"), sb.P("src/a.ttf"))
+				}
+				return err
+			}})
+	}
 	// collections: n members, pre-existing subsets
 	for _, c := range []struct {
 		n   int
